@@ -343,6 +343,66 @@ def ep_pin_lattice(stride):
     return ops
 
 
+def onto_ep_square_lattice():
+    """text replay of a NON-PAWN piece moving onto the square a pawn has just skipped (the en passant target,
+    given in the FEN): every piece kind from every square it reaches that target from, both colours, every file;
+    nothing but the moved piece may change.  `pos position fen F moves m` against the SPEC's apply."""
+    ops = []
+    for white in (True, False):
+        prank, trank = (5, 6) if white else (4, 3)          # pushed pawn's rank, target rank (1-based)
+        for f in range(1, 9):
+            target = (f, trank)
+            for kind in "NBRQK":
+                if kind == "N":
+                    froms = [(f + dx, trank + dy) for dx, dy in ((1, 2), (2, 1), (-1, 2), (-2, 1), (1, -2), (2, -1), (-1, -2), (-2, -1))]
+                elif kind == "K":
+                    froms = [(f + dx, trank + dy) for dx in (-1, 0, 1) for dy in (-1, 0, 1) if (dx, dy) != (0, 0)]
+                else:
+                    dirs = [(1, 0), (-1, 0), (0, 1), (0, -1)] if kind == "R" else [(1, 1), (1, -1), (-1, 1), (-1, -1)] if kind == "B" \
+                        else [(1, 0), (-1, 0), (0, 1), (0, -1), (1, 1), (1, -1), (-1, 1), (-1, -1)]
+                    froms = [(f + dx * d, trank + dy * d) for dx, dy in dirs for d in (1, 2, 3)]
+                for fr in froms:
+                    if not (1 <= fr[0] <= 8 and 1 <= fr[1] <= 8) or fr == (f, prank):
+                        continue
+                    # the line from `fr` to the target must not pass through the pushed pawn
+                    if kind in "RBQ":
+                        step = ((target[0] > fr[0]) - (target[0] < fr[0]), (target[1] > fr[1]) - (target[1] < fr[1]))
+                        sq, blocked = (fr[0] + step[0], fr[1] + step[1]), False
+                        while sq != target:
+                            if sq == (f, prank):
+                                blocked = True
+                            sq = (sq[0] + step[0], sq[1] + step[1])
+                        if blocked:
+                            continue
+                    board = {(f, prank): "p" if white else "P", fr: kind if white else kind.lower()}
+                    kings = []
+                    if kind != "K":
+                        kings.append("K" if white else "k")
+                    kings.append("k" if white else "K")
+                    spots = [(1, 1), (8, 1), (1, 8), (8, 8), (4, 1), (5, 8)]
+                    for kg in kings:
+                        own = kg == ("K" if white else "k")
+                        for sp in (spots if own == white else spots[::-1]):
+                            if sp not in board and sp != target and all(max(abs(sp[0] - o[0]), abs(sp[1] - o[1])) > 1
+                                                                         for o, ch in board.items() if ch in "Kk"):
+                                board[sp] = kg
+                                break
+                    rows = []
+                    for y in range(8, 0, -1):
+                        row, run = "", 0
+                        for x in range(1, 9):
+                            ch = board.get((x, y))
+                            if ch is None:
+                                run += 1
+                            else:
+                                row += (str(run) if run else "") + ch
+                                run = 0
+                        rows.append(row + (str(run) if run else ""))
+                    sqn = lambda p: "abcdefgh"[p[0] - 1] + str(p[1])
+                    ops.append("pos position fen %s %s - %s 0 1 moves %s%s" % ("/".join(rows), "w" if white else "b", sqn(target), sqn(fr), sqn(target)))
+    return ops
+
+
 def movegen_ops(ctx, scale=1):
     q = ctx.quick
     ops = []
@@ -474,6 +534,7 @@ def check_C04(ctx, deep=False):
                 "successors picked along the same moves")
     q = ctx.quick
     ops = C.genops("walk", ctx.seed, (150 if q else 4000) * (4 if deep else 1), 80, 1 if not q else 2)
+    ops += onto_ep_square_lattice()
     res = run_and_compare(ctx, ops, [oracle_state])
     # generated-successor chain vs text replay: same position => same state7
     last_pick = None
@@ -540,6 +601,12 @@ def check_C06(ctx, deep=False):
     for o in C.genops("chkmoves", ctx.seed + 2, 1, "chk") + \
             [o for o in C.genops("walk", ctx.seed + 3, 40 if q else 600, 60, 0) if o.split(" ")[0] in ("fen", "pick", "chk")]:
         ops.append("mk " + o[5:] if o.startswith("pick ") else o)
+    # ... and on boards out of the CAPTURE-ONLY generation (the quiescence search's boards: king captures,
+    # chains of captures), `is_check` after every capture-only successor picked
+    for o in C.genops("cap", ctx.seed + 4, 150 if q else 4000, 40, 6):
+        ops.append(o)
+        if o.startswith("pickc "):
+            ops.append("chk")
     run_and_compare(ctx, ops, [oracle_chk])
     ctx.exhaustive = (stride == 1)
 
